@@ -31,6 +31,7 @@ import JanetModel.Lib.MiscC2Proofs
 import JanetModel.Lib.Boot9Proofs
 import JanetModel.Lib.Boot10Proofs
 import JanetModel.Lib.Boot11Proofs
+import JanetModel.Lib.FormatCProofs
 namespace JanetModel.Props.C17
 open JanetModel.Lib JanetModel.Gen.Lib
 
@@ -616,5 +617,24 @@ theorem boot_map_any_arity {α β γ σ : Type} (agg : σ → γ → σ) (f : α
 example : Boot.mapGen (fun (s : List Nat) v => s ++ [v]) (fun (x : Nat) row => x + row.foldl (· + ·) 0) [] [1, 2, 3]
     [[10, 20, 30], [100, 200], [1000, 2000, 3000], [0, 0, 0, 0]] = .ok [1111, 2222] ∧
     Boot.mapN (fun (s : List Nat) v => s ++ v) (fun (x : Nat) row => x :: row) [] [1, 2] [[3, 4], [5, 6, 7]] = .ok [1, 3, 5, 2, 4, 6] := by decide
+
+/-! ### ★★ session 4: the directive scanner of string/format / buffer/format -/
+
+/-- pp.c `scanformat` (the scanner that `janet_formatbv` runs on every `%` directive): for a format without embedded NUL it
+    reads exactly the directive syntax of the reference formatter (`FormatC.parse`: flags by `takeWhile isFlag`, at most two
+    width digits, an optional `.` with at most two precision digits) — same offset of the conversion character, same width
+    and precision digits; it raises exactly for ≥ 6 flag characters ("repeated flags") and for a third digit ("width or
+    precision too long"); it never reads past the format's terminating NUL and never writes outside the caller's
+    `char form[MAX_FORMAT]` (the mirror has no `.ub` outcome; the `snprintf` format it builds is shorter than 32 bytes) -/
+theorem mirror_scanformat (rest : Bytes) (hz : ∀ c ∈ rest, c ≠ 0) :
+    (FormatC.parse rest = none → FormatC.scanformat rest = .panic) ∧
+    (∀ p w pr, FormatC.parse rest = some (p, w, pr) →
+      ∃ form, FormatC.scanformat rest = .ok { p := p, width := w, precision := pr, form := form } ∧
+        form.length < FormatC.maxFormat) :=
+  FormatC.scanformat_spec rest hz
+
+example : FormatC.scanformat [45, 48, 49, 50, 46, 51, 100, 65]
+    = .ok { p := 6, width := [49, 50], precision := [51], form := [37, 45, 48, 49, 50, 46, 51, 108, 100] } ∧
+    FormatC.scanformat [45, 45, 45, 45, 45, 45, 100] = .panic ∧ FormatC.parse [49, 50, 51, 100] = none := by decide
 
 end JanetModel.Props.C17
